@@ -56,10 +56,10 @@ def run(ctx):
         nets = {'sir_mf': 'mf', 'sir_preg': 'mf', 'hiv_mf_vx': 'mf', 'sir_births': 'mf'}
         beta = {nets[kind]: [0.4, 0.3]} if kind in nets else 0.2
         if kind == 'sir_preg': beta = {'mf': [0.4, 0.3], 'maternal': [0.3, 0]}
-        pk = ('mixing-pool-shared-acquire-stream',) if kind == 'sis_pool' else ()     # one p_acquire stream is shared by all diseases of a pool (listed finding)
+        pk = ('mixing-pool-shared-acquire-stream',) if kind in ('sis_pool', 'sis_pools_agegroup') else ()     # one p_acquire stream is shared by all diseases of a pool (listed finding)
         out.append(('extra independent SIS', dict(diseases=[ss.SIS(name='ghostsis', beta=beta, init_prev=0.2)]), ['ghostsis']) + pk)
         out.append(('extra independent SIR without deaths', dict(diseases=[ss.SIR(name='ghostsir', beta=beta, init_prev=0.2, p_death=0)]), ['ghostsir']) + pk)
-        if kind == 'sis_pool': out.append(('extra independent SIR without deaths, listed first', dict(diseases_front=[ss.SIR(name='ghostsir1', beta=beta, init_prev=0.2, p_death=0)]), ['ghostsir1']) + pk)
+        if kind in ('sis_pool', 'sis_pools_agegroup'): out.append(('extra independent SIR without deaths, listed first', dict(diseases_front=[ss.SIR(name='ghostsir1', beta=beta, init_prev=0.2, p_death=0)]), ['ghostsir1']) + pk)
         return out
     for kind in bases:
         for rep in range(ctx.n(1, 3)):
